@@ -264,6 +264,25 @@ def _pin_ok(run, F, PV, fn, g, site_call, arg, anyp_allowed, label, rid):
                     got = norm(a) if a is not None else "False"
                     if anyp_allowed is None or got in anyp_allowed:
                         good.append(f)
+            if not good and isinstance(arg, ast.Name):
+                # validated after it was put in the local: every path from that assignment to the device call passes the true side of
+                # BasePin.is_valid(<the local>, [any_pin]) (the local is not re-bound on the way: other bindings are other variants)
+                from sa.query import make_facts
+                passn = set()
+                for n_ in g.nodes:
+                    if n_.kind not in ("T", "F") or n_.cond is None:
+                        continue
+                    for f in make_facts(n_.kind, n_.cond.ast, fn, n_):
+                        if f.kind == "call" and f.pol and call_name(f.expr) == "is_valid" and f.expr.args \
+                                and (norm(f.expr.args[0]) == arg.id or norm(f.expr.args[0]) == norm(v)):
+                            kw = [k.value for k in f.expr.keywords if k.arg == "any_pin"]
+                            a = kw[0] if kw else (f.expr.args[1] if len(f.expr.args) > 1 else None)
+                            got = norm(a) if a is not None else "False"
+                            if anyp_allowed is None or got in anyp_allowed:
+                                passn.add(n_)
+                others_ = {x.cnode for x in PV.defs(fn, None).get(arg.id, [])} - {d.cnode}
+                if passn and all(not g.exists_path(d.cnode, cn_, avoid=passn | others_) for cn_ in g.nodes_of(site_call)):
+                    good = [True]
             anyp_expr = sorted(anyp_allowed) if anyp_allowed else "any"
             run.check(rid, bool(good), f"{label}: given PIN validated with any_pin in {anyp_expr}",
                       key=f"{fn.qualname}|{label}|option-pin-validated", where=fn.loc(v),
